@@ -149,9 +149,9 @@ def extract(repo):
     # the compiled parser is generated/expparse.c: the same action text must be there
     def norm_ws(s):
         return re.sub(r"\s+", "", re.sub(r"\byy(lhsminor|msp\[[^\]]*\]\.minor)\.yy\d+", "_", s))
-    gen_n = re.sub(r"\s+", "", gen)
+    gen_n = re.sub(r"\s+", "", _strip_c_comments(gen))
     for nm, snip in [("where_clause", where_snip), ("aggregate_init_body", rep_snips[0]), ("literal(binary)", bin_snip)]:
-        lines = [l.strip() for l in snip.strip().split("\n") if l.strip()]
+        lines = [l.strip() for l in _strip_c_comments(snip).strip().split("\n") if l.strip()]
         for l in lines:
             # A/B/C.. are renamed by lemon: compare the part right of the first '=' or the whole call
             key = re.sub(r"\s+", "", l)
